@@ -219,10 +219,19 @@ def run_files(spec, M):
     r = rng(spec["seed"], ID, "files")
     paths = []
     texts = []
-    for i in range(spec["count"]):
-        text = make_source(r, i)
-        if i % 2:
-            text = text.replace("\r\n", "\n").replace("\n", "\r\n")
+    # files whose bytes some I/O layer might 'normalise': byte-order marks, lone CR, mixed endings, Ctrl-Z, NUL, U+2028,
+    # no final line break, empty file
+    HOSTILE_FILES = ["\ufeffFeature: bom\n  Scenario: s\n    Given x\n", "Feature: f\ufeff\n", "\ufffeFeature: x\n", "Feature: cr\r  Scenario: s\r    Given x\r",
+                     "Feature: mixed\r\n  Scenario: s\n    Given x\r\n\r    Then y\n\r", "Feature: z\x1a\n  Scenario: s\n\x1a", "Feature: n\x00ul\n",
+                     "Feature: u\u2028  Scenario: s\u2029    Given x\x85", "Feature: no final newline", "", "\n", "\r\n", "\r", "\ufeff"]
+    for i in range(spec["count"] + len(HOSTILE_FILES)):
+        if i >= spec["count"]:
+            text = HOSTILE_FILES[i - spec["count"]]
+            M.count("hostile_files_checked")
+        else:
+            text = make_source(r, i)
+            if i % 2:
+                text = text.replace("\r\n", "\n").replace("\n", "\r\n")
         try:
             data = text.encode("utf8")
         except UnicodeEncodeError:
@@ -253,7 +262,7 @@ def run_files(spec, M):
     env = dict(os.environ, PYTHONPATH=PY_ROOT, PYTHONDONTWRITEBYTECODE="1", PYTHONIOENCODING="utf-8")
     for flags, opts in (([], (True, True, True)), (["--no-source"], (False, True, True)), (["--no-ast", "--no-pickles"], (True, False, False)),
                         (["--no-source", "--no-ast"], (False, False, True))):
-        sel = paths[:6]
+        sel = paths[:4] + paths[-len(HOSTILE_FILES):]
         pr = subprocess.run([sys.executable, "-B", "-m", "scripts.generate_events"] + flags + sel, cwd=PY_ROOT, env=env, capture_output=True, timeout=300)
         M.count("cli_runs")
         if pr.returncode != 0:
